@@ -83,7 +83,7 @@ Definition parse_with (oob bs : bytes) : presult :=
     match parse_meta (split_byte meta c_nl) [] with
     | None => PErrCorrupt
     | Some kv =>
-        match parse_buckets oob sz bs hl buckets (dropN bs (head_off hl 0)) [] with
+        match parse_buckets oob sz bs hl (range_from 0 (N.to_nat c_numHash)) (dropN bs (head_off hl 0)) [] with
         | WDiverge => PDiverge
         | WCorrupt => PErrCorrupt
         | WOk acc => POk kv (rev acc)
